@@ -8,7 +8,7 @@ use vlib::util::*;
 
 fn configs() -> Vec<Timing> {
     let mut v = vec![];
-    for &cycle in &[f32::MIN_POSITIVE, 1e-30, 1e-3, 1.0, 1e3, 1e30] {
+    for &cycle in &[f32::MIN_POSITIVE, 1e-30, 1e-3, 1.0, 1e3, 1e30, 2.0e38, f32::MAX] {
         for &delay in &[0.0f32, 1e-30, 1.0, 1e30] {
             for rep in [Rep::None, Rep::Times(0), Rep::Times(1), Rep::Times(1 << 24), Rep::Times((1 << 24) + 1), Rep::Times(u32::MAX - 1), Rep::Times(u32::MAX), Rep::Infinite] {
                 for reverse in [false, true] {
@@ -52,7 +52,7 @@ fn times(c: &Timing) -> Vec<f32> {
         Rep::Times(n) => n as f64,
         Rep::Infinite => 3.0,
     };
-    let mut js = vec![0.0, 1.0, 2.0, 3.0, 4.0, 5.0];
+    let mut js = vec![0.0, 0.5, 1.0, 1.5, 2.0, 3.0, 4.0, 5.0];
     js.extend([2.0 * reps, 2.0 * reps + 1.0, 2.0 * reps + 2.0, 2.0 * reps + 3.0]);
     for j in js {
         let b = c.delay as f64 + j * c.cycle as f64 / 2.0;
@@ -290,7 +290,7 @@ pub fn run(run: Run) -> ! {
     cov.insert("traces_validated_against_impl".into(), json!(debug_compared));
     cov.insert("evaluations".into(), json!(acc.ops));
     cov.insert("distinct_nontrivial".into(), json!(items.len()));
-    cov.insert("rule".into(), json!("cycle in {MIN_POSITIVE,1e-30,1e-3,1,1e3,1e30} x delay in {0,1e-30,1,1e30} x repeat in {None,Times 0,1,2^24,2^24+1,u32::MAX-1,u32::MAX,Infinite} x reverse, restricted to configurations whose total duration is <= f32::MAX (validity bound), x 8 keyframe sets (two with extreme finite values: +-f32::MAX, +-3e38, i32::MIN..2147483520); operations: build, duration, delay, cycle_duration, repeat, start_with, update (plain and after start_with) at {0, MIN_POSITIVE, delay, every phase boundary +-0,1,2 ulp incl. the last cycles, 1e30, f32::MAX}; animator build, advance(dt) for dt in {0,2^-9,1,1e10,1e19,1e20,f32::MAX} each twice, is_ended, set_state; every operation under catch_unwind; oracle: no panic, finite values, values within the keyframe range, and identical result digests from a debug and a release build of the same harness; states = (configuration, keyframe set) cases, transitions = operations"));
+    cov.insert("rule".into(), json!("cycle in {MIN_POSITIVE,1e-30,1e-3,1,1e3,1e30,2e38,f32::MAX} x delay in {0,1e-30,1,1e30} x repeat in {None,Times 0,1,2^24,2^24+1,u32::MAX-1,u32::MAX,Infinite} x reverse, restricted to configurations whose total duration is <= f32::MAX (validity bound), x 8 keyframe sets (two with extreme finite values: +-f32::MAX, +-3e38, i32::MIN..2147483520); operations: build, duration, delay, cycle_duration, repeat, start_with, update (plain and after start_with) at {0, MIN_POSITIVE, delay, every phase boundary +-0,1,2 ulp incl. the last cycles, 1e30, f32::MAX}; animator build, advance(dt) for dt in {0,2^-9,1,1e10,1e19,1e20,f32::MAX} each twice, is_ended, set_state; every operation under catch_unwind; oracle: no panic, finite values, values within the keyframe range, and identical result digests from a debug and a release build of the same harness; states = (configuration, keyframe set) cases, transitions = operations"));
     cov.insert("exhaustive".into(), json!(true));
     cov.insert("debug_release_cases_compared".into(), json!(debug_compared));
     cov.insert("samples".into(), json!([{"timing": cfgs[cfgs.len() / 2].to_json(), "times": times(&cfgs[cfgs.len() / 2]).iter().map(|t| fj(*t)).collect::<Vec<_>>(), "advances": ADVANCES.iter().map(|t| fj(*t)).collect::<Vec<_>>()}]));
